@@ -14,6 +14,8 @@ def family(seed, tier):
         s = scen.mixed_chain(seed * 50 + k, name="c04-%d" % k, blocks=10 if tier == "quick" else 16,
                              sched=dict(scen.LIVE, V202=12, OneWaySmall=12) if k % 2 else None, pip10=(18 if k % 3 == 0 else None))
         docs.append((s.s["name"], s.doc()))
+    g = scen.peg_window_chain(seed, name="c04-pegwin", dups=False)
+    docs.append((g.s["name"], g.doc()))
     r = scen.rich_chain(seed, name="c04-rich", long=(tier != "quick"))
     docs.append((r.s["name"], r.doc()))
     return docs
